@@ -146,7 +146,7 @@ struct Nb {
 }
 
 pub const VARIANTS: [(u64, usize); 5] = [(0, 1), (1, 2), (7, 1), (1 << 32, 1), (u64::MAX, 1)];
-const STATUSES: [u8; 4] = [0, 1, 2, 0xff];
+const STATUSES: [u8; 5] = [0, 1, 2, 0xff, 3];
 
 fn expect_of(status: u8) -> Result<(), Error> {
     match status {
@@ -163,6 +163,18 @@ struct V {
     offered: u64,
     /// Only the non-blocking interface, two sector variants (deeper histories).
     nb_only: bool,
+    /// The device's status byte is a free choice over all 256 values instead of a deviation.
+    sweep: bool,
+}
+
+impl V {
+    fn pick_status(&self) -> u8 {
+        if self.sweep {
+            choose(256, "device status byte") as u8
+        } else {
+            STATUSES[deviate(STATUSES.len(), "device status")]
+        }
+    }
 }
 
 impl TransportVisitor for V {
@@ -234,7 +246,7 @@ impl TransportVisitor for V {
                 menu.push((3, 0));
             }
             if nbs.len() < 3 {
-                for v in (0..VARIANTS.len()).filter(|v| !self.nb_only || *v == 0 || *v == 3) {
+                for v in (0..VARIANTS.len()).filter(|v| !self.nb_only || *v == 0 || (*v == 3 && !self.sweep)) {
                     menu.push((4, v));
                     menu.push((5, v));
                 }
@@ -256,7 +268,7 @@ impl TransportVisitor for V {
                 }
                 0 => {
                     let (sector, n) = VARIANTS[arg];
-                    let st = STATUSES[deviate(4, "device status")];
+                    let st = self.pick_status();
                     *mode.borrow_mut() = Some(st);
                     let mut buf = vec![0x11u8; 512 * n];
                     let r = blk.read_blocks(sector as usize, &mut buf);
@@ -275,7 +287,7 @@ impl TransportVisitor for V {
                 }
                 1 => {
                     let (sector, n) = VARIANTS[arg];
-                    let st = STATUSES[deviate(4, "device status")];
+                    let st = self.pick_status();
                     *mode.borrow_mut() = Some(st);
                     wseq = wseq.wrapping_add(1);
                     let buf: Vec<u8> = (0..512 * n).map(|i| (i as u8).wrapping_mul(3).wrapping_add(wseq)).collect();
@@ -293,7 +305,7 @@ impl TransportVisitor for V {
                     self.check_last(&bd, seen_before, 1, sector, 512 * n);
                 }
                 2 => {
-                    let st = STATUSES[deviate(4, "device status")];
+                    let st = self.pick_status();
                     *mode.borrow_mut() = Some(st);
                     let r = blk.flush();
                     tag("flush");
@@ -311,7 +323,7 @@ impl TransportVisitor for V {
                     }
                 }
                 3 => {
-                    let st = STATUSES[deviate(4, "device status")];
+                    let st = self.pick_status();
                     *mode.borrow_mut() = Some(st);
                     let variant = choose(3, "serial number the device reports (13 characters, all 20 bytes, empty)");
                     bd.borrow_mut().id_variant = variant;
@@ -369,7 +381,7 @@ impl TransportVisitor for V {
                 }
                 6 => {
                     // The device completes held request #arg with a chosen status.
-                    let st = STATUSES[deviate(4, "device status")];
+                    let st = self.pick_status();
                     let chain = co.borrow().held.get(&0).and_then(|h| h.get(arg).cloned());
                     if let Some(chain) = chain {
                         let req = bd.borrow().seen.iter().rev().find(|r| r.head == chain.head).cloned();
@@ -483,7 +495,19 @@ pub fn run(tkind: TKind, depth: usize, nb_only: bool) {
     let mut cfg = Kind::Blk.default_config();
     cfg[0..8].copy_from_slice(&0x1_0000_0008u64.to_le_bytes());
     let w = DWorld::new(Kind::Blk, tkind, offered, cfg);
-    w.with_transport(V { depth, offered, nb_only });
+    w.with_transport(V { depth, offered, nb_only, sweep: false });
+    mmio::set_handler(None);
+}
+
+/// Every device status byte (0..=255) for every request kind: depth 1 for the blocking calls,
+/// submit / complete / consume for the non-blocking ones.
+pub fn run_status_sweep(tkind: TKind, nb_only: bool) {
+    hal::reset();
+    let offered = F_VERSION_1 | F_FLUSH;
+    let mut cfg = Kind::Blk.default_config();
+    cfg[0..8].copy_from_slice(&0x1_0000_0008u64.to_le_bytes());
+    let w = DWorld::new(Kind::Blk, tkind, offered, cfg);
+    w.with_transport(V { depth: if nb_only { 3 } else { 1 }, offered, nb_only, sweep: true });
     mmio::set_handler(None);
 }
 
@@ -627,7 +651,7 @@ impl TransportVisitor for VFull {
                     break;
                 }
                 let j = deviate(held, "which outstanding request the device completes (default: oldest)");
-                let st = STATUSES[deviate(4, "device status")];
+                let st = STATUSES[deviate(STATUSES.len(), "device status")];
                 let chain = co.borrow().held.get(&0).unwrap()[j].clone();
                 let req = match chain.read_all().map_err(|e| e.to_string()).and_then(|r| decode(&chain, &r)) {
                     Ok(r) => r,
